@@ -898,6 +898,54 @@ example : ∃ R R' D, (⟨.constant, (5 : Int), [2, 3], [4, 2], [1, 1]⟩ : ROp 
   · simp only [ROp.call, resizeND, h1]
   · simp [ROp.call, ROp.derivative, resizeND, h0]
 
+/-- **`op.adjoint` exists exactly for the linear operators and is then the transpose of `op`**
+(`ResizingOperator.adjoint` without the weights of the inner products, `ROp.adjointCall`; the
+weights are the subject of `C16.weighted_adjoint_nd`).  For every operator whose forward call is
+accepted: a non-linear one (`constant` with `pad_const ≠ 0`) has no adjoint
+(`NotImplementedError`; by construction); for a linear one — any mode, any number of axes,
+also with an ignored `pad_const ≠ 0` in a non-constant mode — the adjoint call is accepted and
+`Σ_{range box} Y·op(X) = Σ_{domain box} X·op.adjoint(Y)`. -/
+theorem C16.adjoint_call_transpose (op : ROp K) (hl1 : op.sIn.length = op.sOut.length)
+    (hl2 : op.sIn.length = op.offs.length) (X Y R : List Nat → K) (hR : op.call X = .ok R) :
+    (op.isLinear = false → op.adjointCall Y = none) ∧
+    (op.isLinear = true → ∃ Rt, op.adjointCall Y = some (.ok Rt) ∧
+      sumBox op.sOut (fun idx => Y idx * R idx) = sumBox op.sIn (fun idx => X idx * Rt idx)) := by
+  obtain ⟨mode, c, sIn, sOut, offs⟩ := op
+  simp only [ROp.call, resizeND] at hR hl1 hl2
+  cases hc : checkND mode .forward c sIn sOut offs with
+  | some e => rw [hc] at hR; cases hR
+  | none =>
+    rw [hc] at hR
+    simp only [Except.ok.injEq] at hR
+    subst hR
+    have hadm := (C16.nd_accepts_iff mode c sIn sOut offs hl1 hl2).1 hc
+    refine ⟨fun hlin => by simp [ROp.adjointCall, hlin], fun hlin => ?_⟩
+    have hchk : checkND mode .adjoint (0 : K) sOut sIn offs = none := by
+      simp only [checkND, offsetsBad_symm, offsetsBad_false_of_adm hadm,
+        checkAxes_adj_of_adm mode sIn sOut offs hadm]
+      simp
+    refine ⟨resizeAxes mode .adjoint 0 0 sOut sIn offs Y,
+      by simp only [ROp.adjointCall, hlin, ↓reduceIte, resizeND, hchk], ?_⟩
+    have hfwd : resizeAxes mode .forward c 0 sIn sOut offs X =
+        resizeAxes mode .forward 0 0 sIn sOut offs X := by
+      by_cases hm : mode = .constant
+      · have : c = 0 := by simpa [ROp.isLinear, hm] using hlin
+        rw [this]
+      · funext idx; exact axes_c_irrelevant mode hm c sIn sOut offs 0 X idx
+    rw [hfwd]
+    exact C16.adjoint_transpose_nd mode sIn sOut offs hadm X Y
+
+/-- non-vacuity: order0 with an (ignored) `pad_const = 2`, 2 → 4 at offset 1: `Rᵀ(1,2,3,4) =
+(3, 7)`; constant with `pad_const = 2` has no adjoint -/
+example : (⟨.order0, (2 : Int), [2], [4], [1]⟩ : ROp Int).isLinear = true ∧
+    (∃ Rt, (⟨.order0, (2 : Int), [2], [4], [1]⟩ : ROp Int).adjointCall
+      (fun idx => (idx.getD 0 0 : Int) + 1) = some (.ok Rt) ∧ [Rt [0], Rt [1]] = [3, 7]) ∧
+    (⟨.constant, (2 : Int), [2], [4], [1]⟩ : ROp Int).adjointCall (fun _ => 1) = none := by
+  have h : checkND .order0 .adjoint (0 : Int) [4] [2] [1] = none := by decide
+  refine ⟨by decide, ⟨resizeAxes .order0 .adjoint 0 0 [4] [2] [1]
+    (fun idx => (idx.getD 0 0 : Int) + 1), ?_, by decide⟩, by simp [ROp.adjointCall, ROp.isLinear]⟩
+  simp [ROp.adjointCall, ROp.isLinear, resizeND, h]
+
 end round4
 
 /-- **The constructor called by `inverse` finds the same offsets.**  `ResizingOperator.inverse`
